@@ -145,7 +145,8 @@ func (o *outcome) step(s Step) bool {
 		w.mu.Lock()
 		open := w.gateOpen[k]
 		n0 := w.initCount(k)
-		if !c.Tuples[k].SSE && w.pendingInit(k) {
+		pending := !c.Tuples[k].SSE && w.pendingInit(k)
+		if pending {
 			o.joinedDial++
 		}
 		w.mu.Unlock()
@@ -170,6 +171,12 @@ func (o *outcome) step(s Step) bool {
 		// does not concern it).
 		if c.Tuples[k].SSE {
 			o.sync(fmt.Sprintf("upstream sees the sse request of sub %d", i), func() bool { return st.seen > 0 || st.returned })
+			return true
+		}
+		if !pending {
+			// nobody is dialling this tuple as far as the upstream can tell: this subscriber dials, and its
+			// connection_init is an observable event
+			o.sync(fmt.Sprintf("upstream sees the connection_init of the dial started for sub %d", i), func() bool { return st.returned || w.initCount(k) > n0 })
 			return true
 		}
 		w.wait(settle, 0, func() bool { return st.returned || w.initCount(k) > n0 })
@@ -214,6 +221,16 @@ func (o *outcome) step(s Step) bool {
 	case "cancel":
 		i := s.Sub
 		st := w.subs[i]
+		w.mu.Lock()
+		var pendingConns []*upConn
+		if st.started && !st.returned {
+			for _, uc := range w.conns {
+				if uc.tuple == c.Subs[i].Tuple && uc.initSeen && !uc.acked && !uc.closed && !uc.dropped {
+					pendingConns = append(pendingConns, uc)
+				}
+			}
+		}
+		w.mu.Unlock()
 		w.cancelSub(i, true)
 		w.mu.Lock()
 		started := st.started
@@ -241,6 +258,21 @@ func (o *outcome) step(s Step) bool {
 		}
 		if !c.Tuples[c.Subs[i].Tuple].SSE {
 			w.probeConns(c.Subs[i].Tuple)
+		}
+		w.mu.Lock()
+		gateClosed := !w.gateOpen[c.Subs[i].Tuple]
+		w.mu.Unlock()
+		if len(pendingConns) > 0 && gateClosed {
+			// The cancelled call may have been the one dialling. If so its un-acked connection goes away; let
+			// the upstream see that (bounded by the settle interval: if the call was only a waiter nothing closes).
+			w.wait(settle, 0, func() bool {
+				for _, uc := range pendingConns {
+					if !uc.closed {
+						return false
+					}
+				}
+				return true
+			})
 		}
 	case "drop":
 		k := s.Key
